@@ -31,7 +31,8 @@ sys.path.insert(0, os.path.join(os.path.dirname(os.path.dirname(os.path.abspath(
 import c12_nasfloat  # noqa: E402
 
 ID = "C12"
-LEAN_MODULES = ["PyYetiVerif.Props.C12", "PyYetiVerif.Props.C12Multi", "PyYetiVerif.Audit.C12"]
+LEAN_MODULES = ["PyYetiVerif.Props.C12", "PyYetiVerif.Props.C12Multi", "PyYetiVerif.Props.C12Acc",
+                "PyYetiVerif.Props.C12Best", "PyYetiVerif.Audit.C12"]
 AUDIT_FILE = "PyYetiVerif/Audit/C12.lean"
 THEOREMS = [
     "PyYetiVerif.C12." + n
@@ -43,7 +44,10 @@ THEOREMS = [
         "card_line_roundtrip_partial str_field_roundtrip card_fields_ok card_roundtrip_small card_roundtrip_large card_roundtrip_comma card_fixed_comma_agree "
         "reader_options_default rdcards_general_is_rdcards rdcards_multi rdcards_multi_files written_cards_are_blocks "
         "rdcards_assembled array_shape dict_keys_and_last expandtabs_cells tab_line_reads_as_fixed fsearch_first_line "
-        "wtcard_type_dispatch"
+        "wtcard_type_dispatch "
+        "format_float_accuracy format_bound_pieces mixed_branch_picks mixed_branch_reads_as_sci "
+        "fixed_branch_best_precision last_branches_best_precision sci_best_precision sci_slack_attained "
+        "unnormalised_mantissa_is_closer"
     ).split()
 ]
 TRUSTED = [
@@ -52,9 +56,15 @@ TRUSTED = [
     "theorems use are also *proved*: eParts_spec for '%.*e', rheDiv_err for '%.*f', toBits_mant for float() on "
     "a mantissa)",
     "translator harness/translate/c12_nasfloat.py (ast only; cross-checked by the exact string correspondence)",
-    "correspondence harness harness/props/c12.py (exact comparison of fields, card text and rdcards lists; "
-    "the harness regex _FLD_RE as an independent reading of the emitted-field grammar)",
-    "rdcards is modelled for return_var='list', no INCLUDE following, no kept comments, no tabs",
+    "correspondence harness harness/props/c12.py (exact comparison of fields, card text, rdcards results of every "
+    "return_var, expandtabs, fsearch; the harness regex _FLD_RE as an independent reading of the emitted-field "
+    "grammar)",
+    "rdcards is modelled without INCLUDE following (the harness reads from StringIO, where the code switches it "
+    "off); regex=True is modelled with the matcher as a parameter: the harness supplies the verdicts of Python's "
+    "re.compile(name, re.IGNORECASE).match on each expanded line",
+    "NumPy's conversions in rdcards(return_var='array'|'dict'): np.array(list of int/float).astype(float|int) as "
+    "convRow (ints -> nearest double, one float makes the row float64, C truncation for dtype=int) - measured by the "
+    "`rdcards-options` stream, not proved about NumPy",
     "the free-field writer `commaText` of the card theorems is a specification (pyyeti has no comma writer); the "
     "harness writes the same form (_comma_text) and the reader is compared on it exactly",
 ]
@@ -65,9 +75,22 @@ RULE = (
     "a case is one double compared on format_float8/16 and format_double16 (stream format) and on "
     "_format_scientific8/16 (stream sci), exact strings; every distinct emitted field is split by the Lean "
     "recogniser fieldOf? and by the harness regex and the decimal it denotes is rounded and compared with "
-    "nas_sscanf (stream grammar); non-trivial = non-zero; distinct by bit pattern.  cards: seeded random cards "
-    "of 0..60 fields over blank/str/int/float with blank runs and trailing blanks, three writers, single- and "
-    "multi-card files, comma forms incl. first lines of every length 72..80 and beyond; distinct by the card text"
+    "nas_sscanf (stream grammar); non-trivial = non-zero; distinct by bit pattern.  dtype axis (stream "
+    "format-dtype): the same formatters on numpy.float32 / int / numpy.int32 / int64 arguments against the model on "
+    "float(argument); float32 arguments equal to the float32 rounding of a branch literal are skipped and counted "
+    "(NumPy 2 compares a float32 scalar with a Python literal in float32, so the branch can differ there).  cards: "
+    "seeded random cards of 0..60 fields over blank/str/int/float with blank runs and trailing blanks, three "
+    "writers, single- and multi-card files, comma forms incl. first lines of every length 72..80 and beyond; "
+    "fields given as numpy.str_/int32/int64/uint32/uint64/float64/bool, unsupported types (None, float16, int16, "
+    "bool_, bytes, 0-d arrays, lists, Fraction, complex: TypeError), strings longer than the field (stream "
+    "cards-dtype); distinct by the card text.  files (stream rdcards-options): 1..6 cards per file drawn from the "
+    "three writers, the comma form and a tab-separated form, half of them renamed to a common name / common prefix, "
+    "with comment lines, blank lines, BEGIN BULK / ENDDATA, foreign cards, stray continuation-like lines, quoted "
+    "strings containing $, inline comments; read by a full name, a prefix, another case, a missing name or a regular "
+    "expression with return_var list/array/dict, dtype float/int, keep_name, keep_comments, blank default/None/"
+    "number/string, no_data_return; a case is one (file, options) pair compared on the canonical text of the result "
+    "or the exception kind.  str.expandtabs on random strings with tabs, \\n, \\r (stream tabs); fsearch on random "
+    "files (stream fsearch)"
 )
 ASSUMPTIONS = [
     "string fields are Nastran names (letter first, alphanumeric, at most the field width) that nas_sscanf does "
@@ -75,34 +98,51 @@ ASSUMPTIONS = [
     "integer fields fit the field width",
     "accuracy is claimed for 1e-300 <= |x| <= 1e300 (beyond, rounding to the field's digits can overflow to inf); "
     "the Lean theorems cover all fractions with 1e-999 <= |x| < 1e999 (exponents of at most three digits)",
+    "rdcards(return_var='array'|'dict') on a card without any field raises IndexError (`key = val[0]`): the model "
+    "says so, the oracle treats such cards as outside the quantifier (cards of 1..60 fields)",
+    "dtype is float or int (other dtypes are not modelled); with dtype=int the floats of the file are below 1e15 "
+    "(the C cast of a larger double is undefined)",
 ]
 PARTIAL = (
     "proved at full strength (all fractions that are zero or have 1e-999 <= |x| < 1e999, so every finite double): "
-    "sscanf_parses_field / sscanf_parses_recognised (grammar of emitted fields, d->e and sign-as-exponent "
-    "rewriting); format_float_total (format_float8/16 as a whole through the if-chain dispatch: exactly W "
-    "characters, a field of the grammar, read back as a real; side conditions tables_format_ok by decide on the "
-    "regenerated tables); per branch the exact text and the accuracy: fixed_branch_width*, fixed_branch_accuracy "
-    "(end to end through strip / replace / nas_sscanf, |field-x| <= 1/2 10^-p), fixed_precision_maximal, "
-    "sci_width_accuracy + sci_width + sci_consts_ok for _format_scientific8/16 and format_double16 (two-stage "
-    "bound (1/2 10^-P + 1/2 10^-q) 10^E), small_branch_pos, small_branch_neg (incl. the double below the literal "
-    "5e-7 / 5e-15 where float(field1) == float('-0.') is false), last_branches, table_rows_ok, "
-    "carry_guard_sound; cards: card_roundtrip_small / card_roundtrip_large (any number of continuation lines, "
-    "blank padding, trailing blanks, the * in column 73, the even-line padding), card_roundtrip_comma (lines of "
-    "any length) and card_fixed_comma_agree, int/blank/str field round trips, card_fields_ok.  Still partial: "
-    "(1) format_float_total states width, grammar and read-back; the accuracy bounds are per branch and are not "
-    "re-assembled into one statement over the dispatch; (2) that the mixed branch picks the more precise "
-    "alternative (float(field1) == float(field2)) is not proved - each alternative has its own proved bound; "
+    "format_float_accuracy - format_float8/16 through the if-chain dispatch: exactly W characters, a field of the "
+    "grammar, read back as a real, and |field - x| <= formatBound, the explicit piecewise bound (fixed rows "
+    "1/2 10^-p, scientific (1/2 10^-P + 1/2 10^-q) 10^E, mixed: the bound of the alternative emitted, final "
+    "integers 1/2; format_bound_pieces); mixed_branch_picks (positive chain: the fixed alternative is emitted iff "
+    "N > 0, it fits and both fields read as the same double) and mixed_branch_reads_as_sci (whatever is emitted "
+    "reads back as the same number as the scientific field); best precision per branch: "
+    "fixed_branch_best_precision and last_branches_best_precision (no string of the grammar of at most W "
+    "characters, either sign, normalised or not, is closer: slack 0), sci_best_precision (slack 10^(E-q) against "
+    "fields of the other sign, fixed-notation fields and scientific fields whose exponent part is at least as "
+    "long), sci_slack_attained (the slack is sharp) and unnormalised_mantissa_is_closer (12346.+6 beats 1.235+10: "
+    "the formatters are best for the exponent they print, not among all strings); the per-branch theorems of the "
+    "first round; cards: card_roundtrip_small / _large / _comma, card_fixed_comma_agree; the reader with all "
+    "options: rdcards_multi (any matcher, blank, return_var, dtype, keep_name; comments not kept: a file of block "
+    "texts is read block by block), rdcards_multi_files, written_cards_are_blocks, rdcards_assembled, "
+    "rdcards_general_is_rdcards, array_shape (rows x longest card, padded with blank), dict_keys_and_last, "
+    "expandtabs_cells / tab_line_reads_as_fixed (tab stops at 8), fsearch_first_line, wtcard_type_dispatch.  "
+    "Still partial: (1) the choice of the NEGATIVE mixed branch is not characterised (its text, width, read-back "
+    "and the bound of each alternative are proved; which one is emitted is tied by the exact correspondence) - the "
+    "code's field.strip(' 0-') also eats the last zero of a two-digit exponent (-1.5-10), which the proof of the "
+    "positive case does not meet; (2) best precision is per branch and is not re-assembled over the dispatch; for "
+    "the fixed alternative of a mixed branch it is only known that it reads back as the scientific field does; "
     "(3) a comma-form writer does not exist in pyyeti: card_roundtrip_comma is about the specification text "
-    "commaText; (4) card-name matching is proved for one-card files (multi-card files, name prefixes and foreign "
-    "lines are correspondence only); card_line_roundtrip_partial is kept for the record (superseded by "
-    "card_roundtrip_small)"
+    "commaText; (4) in rdcards_assembled the foreign blocks between the cards are assumed to contribute no card "
+    "of the name (decided for concrete lines, tied by correspondence in general); keep_comments=True (comments "
+    "flushed in front of the next matching card) and regex matching are modelled and tied but carry no theorem "
+    "beyond rdcards_multi's 'any matcher'; (5) numpy.float32 arguments equal to the float32 rounding of a branch "
+    "literal are outside the model (NumPy compares in float32 there); `rowsep` does not exist in this code base; "
+    "card_line_roundtrip_partial is kept for the record (superseded by card_roundtrip_small)"
 )
 MANIFEST = {
     "level_text": "proof",
-    "level_note": "Lean theorems per branch (exact text, width, read-back, accuracy over all fractions) and for "
-                  "cards (8/16/comma forms, any number of lines), format_float8/16 as a whole for width, grammar and "
-                  "read-back; multi-card files and the choice between the two alternatives of the mixed "
-                  "branch are tied by exact correspondence",
+    "level_note": "Lean theorems: format_float8/16 as a whole (width, grammar, read-back, explicit piecewise accuracy "
+                  "bound), best precision per branch with the sharp slack and the counterexample for un-normalised "
+                  "mantissas, the positive mixed branch's choice; cards in 8/16/comma forms with any number of lines; "
+                  "the generic reader with all options on multi-card files (block-by-block reading, array shapes, "
+                  "dictionary keys, tabs, fsearch).  Tied by exact correspondence only: the choice of the negative "
+                  "mixed branch, kept comments, regular-expression names (matcher verdicts from Python's re), NumPy's "
+                  "dtype conversions, numpy.float32 arguments",
     "technique": "Lean 4 model + ast translator (NasFloatTables) + differential correspondence",
 }
 
@@ -1238,6 +1278,18 @@ def _number_failures(bulk, x, which=("f8", "f16", "d16", "s8", "s16")):
             if v != 0.0:
                 out.append(("%s-zero" % fname.strip("_").replace("_", "-"), "zero is not written as zero", inp, s, "0."))
             continue
+        if key in ("f8", "f16") and (0.0 < x < 0.001 or -0.01 < x < 0.0):
+            # model-free form of mixed_branch_reads_as_sci: below the fixed-notation rows the field reads back as
+            # the same double as the scientific field, whichever alternative is emitted
+            try:
+                vs = bulk.nas_sscanf(getattr(bulk, "_format_scientific%d" % W)(x))
+            except Exception as e:  # noqa: BLE001
+                vs = repr(e)
+            if not (isinstance(vs, float) and vs == v):
+                out.append(("%s-small-magnitude-reads-differently-from-scientific-field" % fname.replace("_", "-"),
+                            "below the fixed-notation rows the field does not read back as the scientific field does",
+                            inp, [s, repr(v)], repr(vs)))
+                continue
         if not (1e-300 <= abs(x) <= 1e300):
             continue
         unit = _best_unit(x, W, dstyle)
@@ -1370,6 +1422,7 @@ FAM_DICT = "rdcards-dict-key-or-value"
 FAM_TABS = "rdcards-tab-expansion-differs-from-fixed-columns"
 FAM_NPFIELD = "wtcard-numpy-scalar-field-differs-from-python-scalar"
 FAM_NODATA = "rdcards-no-data-return"
+FAM_PREFIX = "rdcards-name-prefix-or-case-not-selected"
 
 
 _ORACLE_STATS = {}
@@ -1413,7 +1466,12 @@ def _file_failures(bulk, parts, name):
             if p_["t"] == "card" and p_["text"].lower().startswith(low):
                 one = _rd(bulk, p_["text"], name, return_var="list", keep_name=True)
                 if one is None or len(one) != 1:
-                    return out  # the single-card oracle (_card_failures) reports this
+                    if name != p_["card"]["name"]:
+                        out.append((FAM_PREFIX, "a card whose first line starts with `name` (case-insensitive) is not "
+                                    "selected: `name` is 'the initial part of the string to look for', so the small- "
+                                    "and the large-field form NAME / NAME* are both read by NAME", inp,
+                                    {"card_text": p_["text"][:200], "read": repr(one)[:200]}, "one card"))
+                    return out  # (read by its own name: the single-card oracle _card_failures reports it)
                 exp.append(one[0])
         got = _rd(bulk, text, name, return_var="list", keep_name=True, no_data_return=_NODATA)
     except Exception as e:  # noqa: BLE001
